@@ -104,6 +104,9 @@ def run_case(ctx, i, rng):
     for k, (cls, text, ext) in enumerate(texts):
         ext = G.ext_for(rng, ext)
         name = f"f{k}{ext}"
+        if isinstance(text, str) and "@SELF@" in text:
+            name = f"f{k}.F90"
+            text = text.replace("@SELF@", name)
         meta.append((cls, text, name))
     # route 1: pool start-up on a third of the texts
     pre = [m for k, m in enumerate(meta) if k % 3 == 0]
